@@ -17,7 +17,15 @@ bool lsearch_t::get(solver_state_t& state, const vector_t& descent, const logger
     logger.info("[lsearch0-", m_lsearch0->type_id(), "]: t=", init_step_size, ",f=", state.fx(),
                 ",g=", state.gradient_test(), ".\n");
 
+    // NB: a failed line-search can leave the state at a trial point that is worse than the current point,
+    //     in which case the current point is restored (so that the solver never returns a worse point than it had).
+    const auto state0 = state;
+
     const auto [ok, step_size] = m_lsearchk->get(state, descent, init_step_size, logger);
     m_last_step_size           = step_size;
+    if (!ok && !(state.valid() && state.fx() <= state0.fx()))
+    {
+        state = state0;
+    }
     return ok;
 }
